@@ -433,12 +433,18 @@ impl<'lexer> Lexer<'lexer> {
     let mut buffer: [char; BUF_SIZE] = [WS; BUF_SIZE];
     for (offset, value) in buffer.iter_mut().enumerate() {
       if let Some(ch) = self.char_at(offset) {
-        if !is_whitespace(ch) {
+        // a comment separates tokens like a white space does
+        if !is_whitespace(ch) && !self.is_comment_start(offset) {
           *value = ch
         };
       }
     }
     buffer
+  }
+
+  /// Returns `true` when a comment (`//` or `/*`) starts at the current position advanced with specified offset.
+  fn is_comment_start(&self, offset: usize) -> bool {
+    matches!((self.char_at(offset), self.char_at(offset + 1)), (Some('/'), Some('/')) | (Some('/'), Some('*')))
   }
 
   /// Consumes all whitespace characters starting from the current position.
